@@ -97,8 +97,13 @@ UnitMeaning(u) == [present |-> u.present, ver |-> u.ver, fmt |-> u.fmt, asz |-> 
 (* and including end_sequence); the file of a row is the resolved path,    *)
 (* not the index.  File and directory tables are compared by content: the  *)
 (* writer may renumber and de-duplicate entries.                           *)
+(* A sequence that consists of its end_sequence row alone maps no address  *)
+(* to any line: it has no meaning (conversion rewrites the address of such *)
+(* a row because it emits no set_address for a sequence without rows).     *)
 RowMeaning(r) == Drop(r, {"file_index"})
-SeqMeaning(s) == [present |-> s.present, rows |-> [i \in DOMAIN s.rows |-> RowMeaning(s.rows[i])]]
+EmptySeq(s) == Len(s.rows) = 1 /\ s.rows[1].end
+SeqMeaning(s) == [present |-> s.present, err |-> s.err,
+                  rows |-> IF EmptySeq(s) THEN <<>> ELSE [i \in DOMAIN s.rows |-> RowMeaning(s.rows[i])]]
 LineHeaderMeaning(h) == [present |-> h.present, dirs |-> Range(h.dirs), files |-> Range(h.files)]
 
 (*------------------------------------------------------------------------*)
